@@ -34,6 +34,12 @@ fn node_path(w: &Value, n: usize, top: &Path) -> PathBuf {
     p
 }
 
+/// 2023-01-15 .. 2023-12-15 (every month), 2023-12-31 23:59:59, 2024-01-01 00:00:00, 2024-02-29, 2000-02-29, 1999-12-31 23:59:59,
+/// 0, 1, -86400 (1969-12-31), 2^31 - 1, 2^31, 2^32, 2100-01-01, 2100-03-01, "now" is what rewritten / other files have
+pub const MTIMES: [i64; 25] = [1673784000, 1676462400, 1678881600, 1681560000, 1684152000, 1686830400, 1689422400, 1692100800, 1694779200,
+    1697371200, 1700049600, 1702641600, 1704067199, 1704067200, 1709208000, 951825600, 946684799, 0, 1, -86400, 2147483647, 2147483648,
+    4294967296, 4102444800, 4107542400];
+
 pub fn materialise(w: &Value, scratch: &Path) -> (PathBuf, PathBuf) {
     let top = scratch.join(format!("w{}", w["id"]));
     std::fs::create_dir_all(&top).expect("mkdir top");
@@ -54,6 +60,13 @@ pub fn materialise(w: &Value, scratch: &Path) -> (PathBuf, PathBuf) {
                     let cls = nd["cls"].as_str().unwrap();
                     let bytes: Vec<u8> = (0..len).map(|i| pat_byte(cls, key, i)).collect();
                     std::fs::write(&p, bytes).expect("write file");
+                    // time as a dimension of the documents: modification times in every month, at the turn of years, on leap
+                    // days, at and before the epoch, around 2^31 / 2^32 seconds and in 2100 (the node number selects one)
+                    let t = MTIMES[n % MTIMES.len()];
+                    let when = if t >= 0 { std::time::UNIX_EPOCH + std::time::Duration::from_secs(t as u64) } else { std::time::UNIX_EPOCH - std::time::Duration::from_secs((-t) as u64) };
+                    if let Ok(f) = std::fs::OpenOptions::new().write(true).open(&p) {
+                        let _ = f.set_modified(when);
+                    }
                 }
                 (2, "link") => {
                     let segs: Vec<&str> = nd["tsegs"].as_array().unwrap().iter().map(|s| s.as_str().unwrap()).collect();
@@ -305,7 +318,7 @@ pub fn random_worlds(o: &Opts) -> i32 {
     let mut wout = Out::create(o.req("worlds-out"));
     let mut cout = Out::create(o.req("cases-out"));
     let names_file = ["a.txt", "data.json", "pic.png", "m.min.js", "noext", "naïve.html", "日本.txt", "x.tar.gz", "Q.PDF", "p.html", "s.css", "f.woff2"];
-    let names_dir = ["d1", "d2", "sub.dir", "ünï", "zz"];
+    let names_dir = ["d1", "d2", "sub.dir", "ünï", "zz", "..data", "v1..v2", "...", "a..", ".hidden.d"];
     for wi in 0..count {
         let id = 1000 + wi;
         let mut nodes: Vec<Value> = vec![];
@@ -428,6 +441,19 @@ pub fn random_worlds(o: &Opts) -> i32 {
                 let mut detour = vec!["zz".to_string(), "..".to_string()];
                 detour.extend(segs);
                 emit(detour, "", "");
+            }
+        }
+        // climbing THROUGH every directory inside the root (their names include ones that contain ".." without being it)
+        for n in 2..=nodes.len() {
+            if n == root || !inside(n) || nodes[n - 1]["kind"] != "dir" {
+                continue;
+            }
+            let p = path_of(n);
+            for up in 1..=depth + 1 {
+                let mut segs = p.clone();
+                segs.extend((0..p.len() + up).map(|_| "..".to_string()));
+                segs.push(format!("s{}", (depth + 1 - up).min(depth - 1)));
+                emit(segs, "", "");
             }
         }
     }
